@@ -435,7 +435,7 @@ def coincide(draw):
             L.append("op " + o)
     if kind == "cwait" and draw(st.booleans()):
         L.append("op release R0")
-    L.append(draw(st.sampled_from(["op hold 0x0p0", "op return 4", "op exit 5", "op hold 0x1p1"])))
+    L.append(draw(st.sampled_from(["op hold 0x0p0", "op return 4", "op exit 5", "op hold 0x1p1", "op hold 0x1p1"])))
     wait_op = {"cwait": draw(st.sampled_from(["cwait C0 ctr 0 1", "cwait C0 resfree R0 0", "cwait C0 poolavail P0 2",
                                               "cwait C0 false 0 0"])),
                "acquire": draw(st.sampled_from(["acquire R0", "preempt R0"])), "pacq": "pacq P0 %d" % draw(st.integers(1, 2)),
@@ -484,6 +484,22 @@ def coincide(draw):
               "bget": ["bget B0 1"], "bput": ["bput B0 1"], "oget": ["oget Q0"], "oput": ["oput Q0 5"],
               "kget": ["kget K0"], "kput": ["kput K0 5 1"]}.get(kind, [])
     acts += rivals
+    # an awaited or waiting process that is stopped and started again within the instant; a waiter whose
+    # timers are cleared from outside before it is stopped / interrupted
+    acts += ["start p0", "start p1"]
+    combos = [["stop p0 2", "start p0"], ["stop p1 6", "start p1"], ["ftimers_clear p1", "stop p1 3"],
+              ["ftimers_clear p1", "interrupt p1 -2 0"], ["ftimer_add p1 0x0p0 4", "stop p1 3"],
+              ["setprio p1 %s" % draw(PRIOS), "interrupt p1 9 0"]]
+    forced = kind == "wait_proc" and draw(st.booleans())
+    if forced or draw(st.integers(0, 2)) == 0:
+        # (for a wait on a process: often the awaited one is ended and started again within the instant)
+        co = combos[0] if forced else draw(st.sampled_from(combos))
+        at = d if (d == 0.0 or draw(st.booleans())) else d - 0.5
+        L.append("proc p%d prio %s start 0 sprio 0" % (nproc, draw(st.sampled_from([9, 9, 3, 0, "max"]))))
+        L.append("op hold %s" % fhex(at))
+        for o in co:
+            L.append("op " + o)
+        nproc += 1
     for _ in range(draw(st.integers(1, 4))):
         a = draw(st.sampled_from(acts))
         # mostly exactly at d; sometimes earlier, so that what happens at d meets the state it left behind
@@ -645,8 +661,30 @@ def deep(draw):
     deep entries): a priority queue filled by one producer and queried / reprioritised / cancelled by
     handle; a condition with many waiters of different priorities of which some become satisfied at
     each signal; a resource or pool with many waiters served one at a time while priorities change."""
-    kind = draw(st.sampled_from(["pq", "pq", "cond", "cond", "guard"]))
+    kind = draw(st.sampled_from(["pq", "pqwalk", "pqwalk", "cond", "cond", "guard"]))
     n = draw(st.integers(6, 14))
+    if kind == "pqwalk":
+        # a long random walk over one priority queue: puts, reprioritisations (mostly small changes), gets,
+        # cancels and position queries interleaved, so that misplaced entries are not repaired at once
+        steps = draw(st.integers(40, 120))
+        L = ["mode sim", "start 0", "pq K0 unlimited", "proc p0 prio 0 start 0 sprio 0"]
+        nput = 0
+        for i in range(steps):
+            r = draw(st.integers(0, 19))
+            if nput < 3 or r < 7:
+                L.append("op kput K0 %d %d" % (nput + 1, draw(st.integers(0, 9)) * 10))
+                nput += 1
+            elif r < 13:
+                L.append("op kreprio K0 %d %d" % (draw(st.integers(max(0, nput - 12), nput - 1)), draw(st.integers(0, 99))))
+            elif r < 17:
+                L.append("op kget K0")
+            elif r < 18:
+                L.append("op kcancel K0 %d" % draw(st.integers(max(0, nput - 12), nput - 1)))
+            else:
+                L.append("op kpos K0 %d" % draw(st.integers(max(0, nput - 12), nput - 1)))
+        for i in range(nput):
+            L.append("op kget K0")
+        return "\n".join(L) + "\n"
     prio = st.integers(-3, 9)
     L = ["mode sim", "start 0"]
     if kind == "pq":
@@ -656,9 +694,12 @@ def deep(draw):
             L.append("op kput K0 %d %d" % (i + 1, draw(prio)))
             if draw(st.integers(0, 5)) == 0:
                 L.append("op kpos K0 %d" % draw(st.integers(0, i)))
-        for _ in range(draw(st.integers(0, 3))):
+        for _ in range(draw(st.integers(0, 8))):
             L.append("op " + draw(st.sampled_from(["kreprio K0 %d %d" % (draw(st.integers(0, n - 1)), draw(prio)),
-                                                   "kcancel K0 %d" % draw(st.integers(0, n - 1)), "kget K0"])))
+                                                   "kreprio K0 %d %d" % (draw(st.integers(0, n - 1)), draw(prio)),
+                                                   "kreprio K0 %d %d" % (draw(st.integers(0, n - 1)), draw(prio)),
+                                                   "kcancel K0 %d" % draw(st.integers(0, n - 1)), "kget K0",
+                                                   "kput K0 %d %d" % (50 + draw(st.integers(0, 9)), draw(prio))])))
         for i in draw(st.permutations(list(range(n)))):
             L.append("op kpos K0 %d" % i)
         L.append("op hold 0x1p0")
